@@ -138,5 +138,5 @@ Checks(e, pre, post, mon) ==
   C02(e, pre, post, mon) \cup C03(e, pre, post) \cup C04(e, pre, post, mon) \cup C05(e, pre, post)
   \cup C10(e, pre, post, mon) \cup C11(e, pre, post, mon)
   \cup C12(e, pre, post, mon) \cup C13(e, pre, post, mon) \cup C14(e, pre, post, mon)
-  \cup C15(e, pre, post, mon) \cup C16(e, pre, post, mon) \cup C19Commit(e, pre) \cup C19Again(e, mon) \cup C07(e, pre, post, mon) \cup C06(e, pre, post) \cup C17(e, pre, post) \cup C17Bridge(e) \cup C03Ignored(e, pre, post)
+  \cup C15(e, pre, post, mon) \cup C16(e, pre, post, mon) \cup C19Commit(e, pre) \cup C19Again(e, mon) \cup C19Gov(e, post) \cup C07(e, pre, post, mon) \cup C06(e, pre, post) \cup C17(e, pre, post) \cup C17Bridge(e) \cup C03Ignored(e, pre, post)
 =============================================================================
